@@ -4,6 +4,8 @@
 // Exposes the unexported shuffle functions and the reader's window state to the C20 harness.
 package epd
 
+import "sync"
+
 // VerifShuffleIndex is shuffleIndex.
 func VerifShuffleIndex(x, n, seed uint64) uint64 { return shuffleIndex(x, n, seed) }
 
@@ -22,6 +24,28 @@ func (c Chunker) VerifManifest() [][2]int64 {
 // VerifSetBuf replaces the backing buffer of a freshly opened chunk by one of n bytes, so that the
 // unmodified Read code can be driven through many refills on small files.
 func (c *Chunk) VerifSetBuf(n int) { c.mapBytes = make([]byte, n) }
+
+// VerifShrinkBuf shortens the backing buffer Open handed to the chunk to its first n bytes WITHOUT
+// replacing it: whatever allocation / sharing structure the implementation gives its buffers stays
+// exactly as Open built it (VerifSetBuf would hide a buffer shared between chunks behind a private
+// one).  Length AND capacity become n (a line that does not fit must still make Read panic exactly as
+// with an n-byte allocation), so this drives the unmodified code through many refills.
+func (c *Chunk) VerifShrinkBuf(n int) {
+	if n < len(c.mapBytes) {
+		verifOrig.Store(c, c.mapBytes)
+		c.mapBytes = c.mapBytes[:n:n]
+	}
+}
+
+// VerifUnshrinkBuf undoes VerifShrinkBuf (call it before Close): the harness leaves the chunk as Open made it,
+// so an implementation that recycles buffers or chunk objects sees nothing of the shortening.
+func (c *Chunk) VerifUnshrinkBuf() {
+	if b, ok := verifOrig.LoadAndDelete(c); ok {
+		c.mapBytes = b.([]byte)
+	}
+}
+
+var verifOrig sync.Map // *Chunk -> the buffer as Open made it
 
 // VerifWindow returns the file window currently held in the backing buffer.
 func (c *Chunk) VerifWindow() (int64, int64) { return c.mapStart, c.mapEnd }
